@@ -309,7 +309,13 @@ pub struct Machine<'p, 'a> {
     pub taken_branches: u64,
     pub calls: u64,
     pub fired: HashMap<EvKind, u64>,
-    pub exit_kinds: HashMap<&'static str, u64>,
+    pub exit_kinds: HashMap<(u32, &'static str), u64>,
+    pub fired_sites: HashMap<(u32, usize, EvKind), u64>,
+    /// constructs (function, opener pc) that were left by a taken branch at least once
+    pub left_by_branch: std::collections::HashSet<(u32, usize)>,
+    /// (function, opener pc) -> causes of arriving behind the construct: pc of a taken branch,
+    /// or usize::MAX for falling through its end / else
+    pub arrivals: HashMap<(u32, usize), std::collections::BTreeSet<usize>>,
     pub loop_iterations: HashMap<(u32, usize), u64>,
 }
 
@@ -339,6 +345,9 @@ impl<'p, 'a> Machine<'p, 'a> {
             calls: 0,
             fired: HashMap::new(),
             exit_kinds: HashMap::new(),
+            fired_sites: HashMap::new(),
+            left_by_branch: Default::default(),
+            arrivals: HashMap::new(),
             loop_iterations: HashMap::new(),
         };
         for (ty, _, init) in &prog.globals {
@@ -417,6 +426,7 @@ impl<'p, 'a> Machine<'p, 'a> {
                     self.expected.push((self.moment, *id));
                 }
                 *self.fired.entry(k).or_default() += ids.len() as u64;
+                *self.fired_sites.entry((f, pc, k)).or_default() += 1;
             }
         }
     }
@@ -559,18 +569,18 @@ impl<'p, 'a> Machine<'p, 'a> {
             match op {
                 Operator::Return | Operator::ReturnCall { .. } | Operator::ReturnCallIndirect { .. } | Operator::Unreachable | Operator::Throw { .. } => {
                     self.emit(f, 0, EvKind::FuncExit);
-                    *self.exit_kinds.entry(match op {
+                    let kind = match op {
                         Operator::Return => "return",
                         Operator::ReturnCall { .. } | Operator::ReturnCallIndirect { .. } => "tail_call",
                         Operator::Unreachable => "unreachable",
                         _ => "throw",
-                    })
-                    .or_default() += 1;
+                    };
+                    *self.exit_kinds.entry((f, kind)).or_default() += 1;
                 }
                 Operator::End => {
                     if pc == last {
                         self.emit(f, 0, EvKind::FuncExit);
-                        *self.exit_kinds.entry("fall_off_end").or_default() += 1;
+                        *self.exit_kinds.entry((f, "fall_off_end")).or_default() += 1;
                     } else {
                         let o = code.partner[pc];
                         match &code.ops[o] {
@@ -633,6 +643,7 @@ impl<'p, 'a> Machine<'p, 'a> {
                         pc = els + 1;
                     } else {
                         // no else-arm: control continues behind the construct
+                        self.arrivals.entry((f, pc)).or_default().insert(usize::MAX);
                         self.emit(f, pc, EvKind::SemAfter);
                         pc = end + 1;
                     }
@@ -643,6 +654,7 @@ impl<'p, 'a> Machine<'p, 'a> {
                     let o = code.partner[pc];
                     let c = ctls.pop().ok_or(Stop::Unsupported("control underflow".into()))?;
                     self.tick();
+                    self.arrivals.entry((f, o)).or_default().insert(usize::MAX);
                     self.emit(f, o, EvKind::SemAfter);
                     self.emit(f, pc, EvKind::SemAfter);
                     pc = c.end_pc + 1;
@@ -657,6 +669,7 @@ impl<'p, 'a> Machine<'p, 'a> {
                     let o = code.partner[pc];
                     ctls.pop();
                     self.tick();
+                    self.arrivals.entry((f, o)).or_default().insert(usize::MAX);
                     match &code.ops[o] {
                         Operator::Loop { .. } => {}
                         Operator::If { .. } => {
@@ -1195,11 +1208,18 @@ impl<'p, 'a> Machine<'p, 'a> {
                 let vals = stack.split_off(n - arity);
                 stack.truncate(height);
                 stack.extend(vals);
+                for c in &ctls[ti + 1..] {
+                    self.left_by_branch.insert((f, c.opener));
+                }
+                if !is_loop && opener != usize::MAX {
+                    self.left_by_branch.insert((f, opener));
+                    self.arrivals.entry((f, opener)).or_default().insert(pc);
+                }
                 if opener == usize::MAX {
                     // branch to the function label = return
                     self.emit(f, 0, EvKind::FuncExit);
                     self.emit(f, pc, EvKind::SemAfter);
-                    *self.exit_kinds.entry(if ctls.len() >= 3 { "branch_to_function_label_from_depth_ge_2" } else { "branch_to_function_label" }).or_default() += 1;
+                    *self.exit_kinds.entry((f, if ctls.len() >= 3 { "branch_to_function_label_from_depth_ge_2" } else { "branch_to_function_label" })).or_default() += 1;
                     let n = stack.len();
                     let vals = stack.split_off(n - n_res);
                     return Ok(FrameEnd::Return(vals));
